@@ -52,6 +52,9 @@ pub struct C14Spec {
     /// queued); judged: `drop` returns, the old worker has quit by then and
     /// changes nothing afterwards, re-opening does not panic
     pub worker_faults: bool,
+    /// one schedule only (the caller whenever it is enabled): for first-instance
+    /// histories too large to explore, e.g. a purge that removes dozens of chunks
+    pub caller_first_only: bool,
 }
 
 fn vio(spec: &C14Spec, key: &str, what: String, extra: serde_json::Value) -> Violation {
@@ -274,6 +277,9 @@ fn body(spec: C14Spec, pl: Arc<Plan>, dir: String, out: Arc<Mutex<Out>>) {
 }
 
 pub fn explore(spec: &C14Spec, vios: &mut Vec<Violation>, stats: &mut SchedStats, deadline: Instant) -> Result<(), Machinery> {
+    if spec.caller_first_only {
+        return explore_with(spec, vios, stats, deadline, Dfs::replaying(vec![], 0, FaultPolicy::None));
+    }
     if spec.worker_faults {
         let mut dfs = Dfs::new(1, FaultPolicy::WorkerEioUnlink);
         dfs.fault_inst = Some(0);
@@ -328,6 +334,7 @@ pub fn replay(r: &serde_json::Value) -> i32 {
         max_executions: 1,
         unwind_drop: r["unwind_drop"].as_bool().unwrap_or(false),
         worker_faults: r["worker_faults"].as_bool().unwrap_or(false),
+        caller_first_only: false,
     };
     let mut vios = vec![];
     let mut stats = SchedStats::default();
@@ -416,6 +423,14 @@ fn explore_with(spec: &C14Spec, vios: &mut Vec<Violation>, stats: &mut SchedStat
                 spec,
                 &format!("{}directory-changed-after-drop", pfx),
                 format!("after drop returned, the first instance's worker still changed the directory: {:?}", mutations_after_drop),
+                json!({"schedule": sched_json}),
+            ));
+        }
+        if !res.unmanaged_fs.is_empty() {
+            vios.push(vio(
+                spec,
+                "directory-changed-by-a-thread-the-store-does-not-join",
+                format!("a thread other than the caller and the flush worker (started by the store, unknown to the scheduler, not joined by drop) changed the directory: {:?}", res.unmanaged_fs),
                 json!({"schedule": sched_json}),
             ));
         }
